@@ -10,10 +10,11 @@ import (
 )
 
 const (
-	soloStepCap  = 6_000_000
-	coldOpLimit  = 2_000_000
-	resNotRun    = ""
-	resSkipUnpub = "skip:unpublished"
+	soloStepCap      = 6_000_000
+	opStepLimit      = 3_000_000  // no corpus or grammar input needs more than ~150 000 steps alone
+	giantOpStepLimit = 40_000_000 // giant inputs need up to ~3 000 000
+	resNotRun        = ""
+	resSkipUnpub     = "skip:unpublished"
 )
 
 // Violation is one oracle failure.
@@ -422,10 +423,13 @@ func runScenario(sc *Scenario, r *zsimrt.Rand, replay []zsimrt.Decision) *Outcom
 			for i := range sc.Tasks[t] {
 				s := soloSteps[idx[t][i]]
 				totalEst += s + 2
-				if sc.Cold {
-					w.limits[t][i] = coldOpLimit
-				} else {
-					w.limits[t][i] = 50*s + 10_000
+				// L2 bound: absolute, far above what any input of the workload needs alone.
+				// (It used to be 50 x the solo step count; a legitimate cache makes the
+				// solo run a cheap hit and the simulated run a full computation, so a
+				// relative bound raised a false alarm on a correct memoising change.)
+				w.limits[t][i] = opStepLimit
+				if sc.Giant {
+					w.limits[t][i] = giantOpStepLimit
 				}
 			}
 		}
@@ -441,10 +445,10 @@ func runScenario(sc *Scenario, r *zsimrt.Rand, replay []zsimrt.Decision) *Outcom
 			StallMean: sc.Sched.StallMean,
 			SyncQ:     sc.Sched.SyncQ,
 			HookEvery: sc.O2Every,
-			StepCap:   5_000_000,
+			StepCap:   30_000_000,
 		}
 		if sc.Giant {
-			cfg.StepCap = 60_000_000
+			cfg.StepCap = 150_000_000
 		}
 		if cfg.Policy == zsimrt.PolSingle {
 			var aSteps uint64
@@ -570,7 +574,7 @@ func runScenario(sc *Scenario, r *zsimrt.Rand, replay []zsimrt.Decision) *Outcom
 				}
 				if out.Stats.Overrun && out.Stats.OverrunTask == t && fair {
 					keep(&Violation{Oracle: "L2", Task: t, Op: i, Kind: op.Kind,
-						What: fmt.Sprintf("operation exceeded its step bound (%d solo steps, bound %d) and did not produce the sequential result", soloSteps[f], w.limits[t][i]),
+						What: fmt.Sprintf("operation did not finish within %d of its own steps (it needs %d alone): livelock or unbounded retry under this schedule", w.limits[t][i], soloSteps[f]),
 						Want: refA[f], Step: out.Stats.OverrunStep})
 				}
 				continue // collateral of an aborted run
